@@ -216,6 +216,9 @@ func checkCase(c *Case, count bool) error {
 			}
 		}
 		if h.Kind != "route" {
+			if h.CloneWithDiff != "" {
+				return fmt.Errorf("%sinside the %s handler: %s", desc, h.Kind, h.CloneWithDiff)
+			}
 			if !h.RouteNil || h.Pattern != "" || len(h.Params) != 0 {
 				return fmt.Errorf("%sinside the %s handler the context exposes route-nil=%v pattern=%q params=%v", desc, h.Kind, h.RouteNil, h.Pattern, h.Params)
 			}
